@@ -1448,7 +1448,7 @@ def judgeLine (line : String) : Verdict :=
     let want? := (mods.find? (·.startsWith "@want=")).map (fun t => (t.drop 6).toString)
     let got? : Option String :=
       match op.headD "" with
-      | "tu" | "regular" => L.payload.head?
+      | "tu" | "regular" | "graphic" | "network" => L.payload.head?
       | "tusigned" => (L.payload.getD 1 "?" |> fun t => if t == "y" then some "yes" else if t == "n" then some "no" else none)
       | _ => none
     let v : Verdict :=
